@@ -244,6 +244,13 @@ func (r *Runtime) bigint_asIntN(call FunctionCall) Value {
 		panic(r.NewTypeError("Invalid value: not (convertible to) a safe integer"))
 	}
 	bigint := toBigInt(call.Argument(1))
+	if bits > maxBigIntBits {
+		if (*big.Int)(bigint).BitLen() < maxBigIntBits {
+			// the value fits in bits-1 bits: it is its own residue
+			return bigint
+		}
+		r.throwBigIntTooBig()
+	}
 
 	twoToBits := new(big.Int).Lsh(big.NewInt(1), uint(bits))
 	mod := new(big.Int).Mod((*big.Int)(bigint), twoToBits)
@@ -263,6 +270,13 @@ func (r *Runtime) bigint_asUintN(call FunctionCall) Value {
 		panic(r.NewTypeError("Invalid value: not (convertible to) a safe integer"))
 	}
 	bigint := (*big.Int)(toBigInt(call.Argument(1)))
+	if bits > maxBigIntBits {
+		if bigint.Sign() >= 0 && bigint.BitLen() <= maxBigIntBits {
+			return (*valueBigInt)(bigint)
+		}
+		// 2^bits + x for a negative x, or a value that is itself beyond the limit
+		r.throwBigIntTooBig()
+	}
 	ret := new(big.Int).Mod(bigint, new(big.Int).Lsh(big.NewInt(1), uint(bits)))
 	return (*valueBigInt)(ret)
 }
